@@ -30,6 +30,10 @@ type Batch struct {
 	// Builders: case id -> builder type name (XBuilder) -> import path, for the
 	// zero-argument constructors NewXBuilder
 	Builders map[string]map[string]string
+	// Converters: case id -> converter function name (XConverter) -> import
+	// path; ConverterArg: its parameter type as written (X or *X)
+	Converters   map[string]map[string]string
+	ConverterArg map[string]map[string]string
 	// NoDriver: only type-check, do not build the reflective driver
 	NoDriver bool
 	// CompileErrors per case (empty = the case type-checks)
@@ -49,7 +53,7 @@ func NewBatch(dir string) (*Batch, error) {
 	if err := os.WriteFile(filepath.Join(dir, "go.mod"), []byte("module "+modName+"\n\ngo 1.21\n"), 0o644); err != nil {
 		return nil, err
 	}
-	return &Batch{Dir: dir, Types: map[string]map[string]bool{}, PkgOf: map[string]map[string]string{}, CompileErrors: map[string][]string{}, Builders: map[string]map[string]string{}}, nil
+	return &Batch{Dir: dir, Types: map[string]map[string]bool{}, PkgOf: map[string]map[string]string{}, CompileErrors: map[string][]string{}, Builders: map[string]map[string]string{}, Converters: map[string]map[string]string{}, ConverterArg: map[string]map[string]string{}}, nil
 }
 
 func (b *Batch) Close() { _ = os.RemoveAll(b.Dir) }
@@ -60,6 +64,8 @@ func (b *Batch) Add(caseID string, files Files) error {
 	b.Types[caseID] = map[string]bool{}
 	b.PkgOf[caseID] = map[string]string{}
 	b.Builders[caseID] = map[string]string{}
+	b.Converters[caseID] = map[string]string{}
+	b.ConverterArg[caseID] = map[string]string{}
 	for _, p := range files.Paths() {
 		if !strings.HasSuffix(p, ".go") {
 			continue
@@ -98,6 +104,18 @@ func (b *Batch) Add(caseID string, files Files) error {
 					}
 				}
 			case *ast.FuncDecl:
+				if decl.Recv == nil && strings.HasSuffix(decl.Name.Name, "Converter") && decl.Type.Params.NumFields() == 1 && decl.Type.Results.NumFields() == 1 {
+					switch pt := decl.Type.Params.List[0].Type.(type) {
+					case *ast.Ident:
+						b.Converters[caseID][decl.Name.Name] = modName + "/" + filepath.ToSlash(pkgDir)
+						b.ConverterArg[caseID][decl.Name.Name] = pt.Name
+					case *ast.StarExpr:
+						if id, ok := pt.X.(*ast.Ident); ok {
+							b.Converters[caseID][decl.Name.Name] = modName + "/" + filepath.ToSlash(pkgDir)
+							b.ConverterArg[caseID][decl.Name.Name] = "*" + id.Name
+						}
+					}
+				}
 				if decl.Recv == nil && strings.HasPrefix(decl.Name.Name, "New") && decl.Type.Params.NumFields() == 0 && decl.Type.Results.NumFields() == 1 {
 					ctors[strings.TrimPrefix(decl.Name.Name, "New")] = true
 					if name := strings.TrimPrefix(decl.Name.Name, "New"); strings.HasSuffix(name, "Builder") && name != "Builder" {
@@ -161,7 +179,7 @@ func (b *Batch) buildDriver() error {
 		return err
 	}
 	var reg bytes.Buffer
-	reg.WriteString("package main\n\nimport (\n")
+	reg.WriteString("package main\n\nimport (\n\t\"encoding/json\"\n")
 	alias := map[string]string{}
 	n := 0
 	for _, c := range b.cases {
@@ -175,6 +193,9 @@ func (b *Batch) buildDriver() error {
 		for _, p := range b.Builders[c] {
 			pkgs[p] = true
 		}
+		for _, p := range b.Converters[c] {
+			pkgs[p] = true
+		}
 		var sorted []string
 		for p := range pkgs {
 			sorted = append(sorted, p)
@@ -186,7 +207,7 @@ func (b *Batch) buildDriver() error {
 			fmt.Fprintf(&reg, "\t%s %q\n", alias[p], p)
 		}
 	}
-	reg.WriteString(")\n\nfunc init() {\n")
+	reg.WriteString(")\n\nvar _ = json.Marshal\n\nfunc init() {\n")
 	for _, c := range b.cases {
 		if len(b.CompileErrors[c]) > 0 {
 			continue
@@ -211,6 +232,20 @@ func (b *Batch) buildDriver() error {
 		sort.Strings(bnames)
 		for _, n := range bnames {
 			fmt.Fprintf(&reg, "\tbreg[%q] = func() any { return %s.New%s() }\n", c+"/"+n, alias[b.Builders[c][n]], n)
+		}
+		var cnames []string
+		for n := range b.Converters[c] {
+			cnames = append(cnames, n)
+		}
+		sort.Strings(cnames)
+		for _, n := range cnames {
+			a := alias[b.Converters[c][n]]
+			argType := strings.TrimPrefix(b.ConverterArg[c][n], "*")
+			arg := "v"
+			if strings.HasPrefix(b.ConverterArg[c][n], "*") {
+				arg = "&v"
+			}
+			fmt.Fprintf(&reg, "\tcreg[%q] = func(doc []byte) (string, string, error) { var v %s.%s; if err := json.Unmarshal(doc, &v); err != nil { return \"\", \"\", err }; enc, _ := json.Marshal(v); return %s.%s(%s), string(enc), nil }\n", c+"/"+n, a, argType, a, n, arg)
 		}
 	}
 	reg.WriteString("}\n")
@@ -362,6 +397,7 @@ type entry struct {
 
 var reg = map[string]entry{}
 var breg = map[string]func() any{}
+var creg = map[string]func(doc []byte) (string, string, error){}
 
 type buildProgram struct {
 	Builder string      ` + "`json:\"builder\"`" + `
@@ -567,6 +603,17 @@ func handle(req request) (resp response) {
 			resp.Panic = fmt.Sprint(r)
 		}
 	}()
+	if req.Op == "convert" {
+		conv, ok := creg[req.Key]
+		if !ok {
+			resp.Missing = true
+			return
+		}
+		text, enc, err := conv([]byte(req.Doc))
+		resp.StdErr = errString(err)
+		resp.Encoded, resp.Encoded2 = text, enc
+		return
+	}
 	if req.Op == "build" {
 		if req.Build == nil {
 			resp.Missing = true
